@@ -6,7 +6,7 @@ Records/ADTs: PackRecord/UnpackRecord are passed on as they are; the type table 
 directive the REAL IO statements carry (what souffle's ReadStream/WriteStream decode with: record name -> field types,
 ADT name -> enum flag + branches in branch-id order); a record/ADT attribute keeps its qualifier ("r:Pr", "+:Tr"),
 a primitive one is reduced to its kind letter ("i", "u", "s")."""
-import json, os, re
+import json, os, re, threading
 from .common import REPO
 
 def _enum(path, name):
@@ -16,12 +16,18 @@ def _enum(path, name):
     body = re.sub(r"/\*.*?\*/", "", body, flags=re.S)
     return [x.strip().split("=")[0].strip() for x in body.split(",") if x.strip()]
 
-_cache = {}
+_cache = None
+_cache_lock = threading.Lock()
 def enums():
-    if not _cache:
-        _cache["functor"] = _enum("src/FunctorOps.h", "FunctorOp")
-        _cache["cmp"] = _enum("src/include/souffle/BinaryConstraintOps.h", "BinaryConstraintOp")
-        _cache["agg"] = _enum("src/AggregateOp.h", "AggregateOp")
+    # called from the checks' worker threads: the table is built whole under a lock and published by one assignment, so
+    # that no thread ever sees it half filled (a KeyError 'cmp' from exactly that was a false alarm of C09)
+    global _cache
+    if _cache is None:
+        with _cache_lock:
+            if _cache is None:
+                _cache = {"functor": _enum("src/FunctorOps.h", "FunctorOp"),
+                          "cmp": _enum("src/include/souffle/BinaryConstraintOps.h", "BinaryConstraintOp"),
+                          "agg": _enum("src/AggregateOp.h", "AggregateOp")}
     return _cache
 
 SUPPORTED_FUNCTORS = {"ADD", "SUB", "MUL", "DIV", "MOD", "EXP", "NEG", "MAX", "MIN", "BAND", "UBAND", "BOR", "UBOR", "BXOR",
